@@ -221,6 +221,31 @@ kel  = { ^"\u{212a}" ~ 'a'..'z'* }
 P_FOLD_CALLS = [("ci", "MASS3"), ("ci", "maß 3"), ("ci", "MAß"), ("ci", "mas"), ("ci2", "FIN"), ("ci2", "ﬁN"), ("ci2", "STRASSE"), ("ci2", "Straße"), ("ci2", "ǅ"), ("ci2", "Ǆ"),
                 ("cis", "Ǆǅk"), ("cis", "İ"), ("cis", "i̇K"), ("cis", "K"), ("pun", "[a-]^\\."), ("pun", "b"), ("unit", "MASS 3"), ("unit", "maß 3"), ("unit", "Maß3"), ("kel", "kelvin"), ("kel", "Kx")]
 
+# RECURSIVE rules around stack operations, with several entry rules into every cycle: what an
+# implementation works out lazily about a rule or node ("pure", "cannot touch the stack", a
+# resolved delegate) depends on where the analysis entered the cycle -- i.e. on which start
+# rule was used FIRST on the object -- unless it is a true fixed point
+P_CYC = r"""
+quote  = { "'" | "\"" }
+word   = { ASCII_ALPHA+ }
+raw    = { (ASCII_ALPHANUMERIC | "'" | "\"")+ }
+value  = { quoted | raw }
+quoted = { label? ~ PUSH(quote) ~ word ~ POP }
+label  = { "[" ~ value ~ "]" }
+field  = { quoted | "-" }
+line   = { SOI ~ value ~ ("=" ~ value)* ~ PEEK_ALL ~ EOI }
+blk    = { PUSH("{") ~ item* ~ DROP ~ "}" }
+item   = { blk | tok ~ ";"? }
+tok    = { !("{" | "}") ~ ASCII_ALPHANUMERIC+ }
+ent    = { item ~ !PEEK ~ EOI | blk ~ "!" }
+chk    = { &(blk ~ EOI) ~ item | PUSH("x") ~ tok ~ POP }
+deep   = { (PUSH("<") ~ deep ~ ">" ~ DROP)? ~ tail? }
+tail   = { "." ~ (PEEK | "e") }
+"""
+P_CYC_CALLS = [("line", "'ab'=cd"), ("line", "'ab=cd"), ("line", "['x']\"q\"=z"), ("line", "[\"x]'q'"), ("field", "-"), ("field", "'a'"), ("field", "['a']'b'"), ("field", "'a"), ("value", "'ab"), ("value", "x"),
+               ("label", "['a']"), ("label", "['a]"), ("blk", "{a;{b}c}"), ("blk", "{a;{b}"), ("item", "{x}"), ("item", "x;"), ("ent", "{a}"), ("ent", "{a}!"), ("ent", "a}"), ("chk", "{a}"), ("chk", "xax"), ("chk", "{a"),
+               ("deep", "<<.e>>"), ("deep", "<<.<>>"), ("deep", "<.<>"), ("deep", ".e"), ("tail", ".e"), ("tail", ".x")]
+
 FIXED = {
     # "overflow": inputs nested far beyond the interpreter's recursion budget -- the isolated
     # reference is RecursionError, and stays so whatever happened before
@@ -232,6 +257,7 @@ FIXED = {
     "P-twin2": {"text": P_TWIN2, "calls": P_TWIN2_CALLS},
     "P-mod": {"text": P_MOD, "calls": P_MOD_CALLS},
     "P-fold": {"text": P_FOLD, "calls": P_FOLD_CALLS},
+    "P-cyc": {"text": P_CYC, "calls": P_CYC_CALLS},
 }
 
 # ------------------------------------------------------------------- random grammars
